@@ -6,7 +6,8 @@
 (*   [ev |-> "step", case |-> n, op |-> <op record>, ret |-> STRING,       *)
 (*    b |-> table before, a |-> table after,         (projections)         *)
 (*    rd |-> [it, fe, fc, gr : [ret, cells]],        (ReadAll only)        *)
-(*    cp |-> [o0, o1, c0, c1 : STRING]]              (CopyTable only)      *)
+(*    cp |-> [o0, o1, c0, c1 : STRING],              (CopyTable only)      *)
+(*    sv |-> [ret, tbl]]      (optional: the serialised w:tbl, last step)   *)
 (* Every step carries the projection of the table before the call, so the   *)
 (* judge is resynchronised on the observed state by construction and never  *)
 (* blocks; identical steps may have been removed by the driver (the         *)
@@ -32,6 +33,11 @@ Judge(e) ==
                \cup {<<"C09", "GetCellRange", sh, f>> :
                        f \in (IF IsPlain(e.b) THEN Viol_Read(e.b, e.rd.gr)
                               ELSE Viol_Read(e.b, e.rd.gr) \cap {"panic"})}
+            ELSE {})
+      \* the serialised table (projected by the independent reader) is the table in memory
+      \cup (IF "sv" \in DOMAIN e /\ name # "Start" /\ e.ret # "panic"
+            THEN (IF e.sv.ret # "ok" THEN {<<"C09", "Save", sh, "save-error">>}
+                  ELSE IF e.sv.tbl # e.a THEN {<<"C09", "Save", sh, "save-mismatch">>} ELSE {})
             ELSE {})
       \cup (IF name = "CopyTable" /\ e.ret = "ok" /\ (e.cp.o0 # e.cp.o1 \/ e.cp.c0 # e.cp.c1)
             THEN {<<"C09", "CopyTable", sh, "shared-state">>} ELSE {})
